@@ -176,7 +176,14 @@ pub fn run_pool(jobs: &[Job], par: usize, job_timeout: Duration) -> Vec<Result<J
                             }
                         }
                     };
-                    if res.is_err() && attempts[r.idx] < 2 {
+                    // a panic of the code under test that unwound out of the whole job is believed only if it
+                    // happens again (the same applies to a death without verdict)
+                    let unwound = matches!(&res, Ok(jr) if jr.capped.as_deref().map(|c| c.contains("panic in the code under test")).unwrap_or(false));
+                    if unwound && attempts[r.idx] < 2 {
+                        eprintln!("note: job {} was cut short by a panic in the code under test; running it once more to confirm", r.idx);
+                        RETRIES.fetch_add(1, std::sync::atomic::Ordering::SeqCst);
+                        pending.push_back(r.idx);
+                    } else if res.is_err() && attempts[r.idx] < 2 {
                         eprintln!("note: {}; starting it once more", res.as_ref().err().unwrap().lines().next().unwrap_or(""));
                         RETRIES.fetch_add(1, std::sync::atomic::Ordering::SeqCst);
                         pending.push_back(r.idx);
